@@ -194,6 +194,73 @@ def main():
                     R.count('writer:crop')
                 except Exception as e:
                     R.notes.append(f'crop composition skipped ({type(e).__name__}: {str(e)[:80]})') if len(R.notes) < 5 else None
+        # ---------------- format versions on both sides of every gate (0.1.7: interval in microseconds; 0.2.2: padded footer +
+        # trace count field), releases and development builds.  A file AS A LIBRARY OF VERSION v WROTE IT is built from a
+        # current file by the specification alone (as_version below); the reader must report what was written, and whatever
+        # the re-blocker and the cropper make of it must conform to the specification as of v (they keep the recorded version)
+        def as_version(p_cur, q, v, dev):
+            raw = open(p_cur, 'rb').read()
+            u = lambda o: struct.unpack('<I', raw[o:o + 4])[0]
+            nhb, ndb, hel, nha = u(0), u(56), u(60), u(64)
+            hdr = bytearray(raw[:4096 * nhb])
+            hdr[72:76] = struct.pack('<I', (v[0] * 1024 + v[1]) * 2048 + v[2] * 2 + (0 if dev else 1))
+            foot = 4096 * (nhb + ndb)
+            stride_cur = -(-hel // 512) * 512
+            arrays = [raw[foot + k * stride_cur: foot + k * stride_cur + hel] for k in range(nha)]
+            newer_footer = (v, 0 if dev else 1) > ((0, 2, 1), 1)
+            if not newer_footer:
+                hdr[68:72] = bytes(4)                                           # no trace-count field before 0.2.2
+            if not (v, 0 if dev else 1) > ((0, 1, 6), 1):
+                us = struct.unpack('<I', hdr[28:32])[0]
+                assert us % 1000 == 0
+                hdr[28:32] = struct.pack('<I', us // 1000)                      # milliseconds before 0.1.7
+            with open(q, 'wb') as f:
+                f.write(bytes(hdr) + raw[4096 * nhb: foot])
+                for arr in arrays:
+                    f.write(arr + (bytes(stride_cur - hel) if newer_footer else b''))
+        vers = [((0, 1, 6), False), ((0, 1, 7), True), ((0, 1, 7), False), ((0, 2, 1), False), ((0, 2, 2), True), ((0, 2, 2), False)]
+        for v, dev in (vers if thorough else vers[:5]):
+            vname = '.'.join(map(str, v)) + ('.dev' if dev else '')
+            n_il, n_xl, ns = rng.choice([(5, 5, 9), (6, 7, 12), (3, 9, 5)])            # header arrays of 100 / 168 / 108 bytes: not a multiple of 512
+            src = rnd_cube(rng, (n_il, n_xl, ns))
+            dt = 4.0 if (v, 0 if dev else 1) <= ((0, 1, 6), 1) else 2.5                # 2500 us: not a whole number of ms
+            samples = 100.0 + dt * np.arange(ns)
+            idx += 1
+            p0 = os.path.join(d, f'v{idx}_cur.sgz'); p = os.path.join(d, f'v{idx}.sgz')
+            il = list(range(3, 3 + 2 * n_il, 2)); xl = list(range(100, 100 + 3 * n_xl, 3))
+            hdrs = {189: np.repeat(np.array(il, dtype=np.int32)[:, None], n_xl, 1), 193: np.repeat(np.array(xl, dtype=np.int32)[None, :], n_il, 0),
+                    73: (np.arange(n_il * n_xl, dtype=np.int32).reshape(n_il, n_xl) * 7 - 50)}
+            inp = {'writer': 'file as written by library version ' + vname, 'shape': [n_il, n_xl, ns], 'bits_per_voxel': 2, 'samples': f'start 100 ms, interval {dt} ms'}
+            write_numpy_sgz(p0, src, bpv=2, blockshape=(4, 4, -1), ilines=np.array(il), xlines=np.array(xl), samples=samples, trace_headers=dict(hdrs))
+            as_version(p0, p, v, dev)
+            hsrc = lambda key, hdrs=hdrs: hdrs[key].astype(np.int32).reshape(-1) if key in hdrs else None
+            R.case(('version', vname), sample=inp)
+            R.count('file of version ' + vname)
+            outs = [(p, inp)]
+            for name, fn in (('re-block', lambda c_, q_: c_.convert_to_adv_sgz(q_)),):
+                q_ = os.path.join(d, f'v{idx}_adv.sgz')
+                try:
+                    with SgzConverter(p) as c_:
+                        quiet(fn, c_, q_)
+                    outs.append((q_, dict(inp, writer=inp['writer'] + ' -> ' + name)))
+                except Exception as e:
+                    R.violation('oracle', dict(inp, writer=inp['writer'] + ' -> ' + name), f'{name} raised {type(e).__name__}: {e}')
+            q_ = os.path.join(d, f'v{idx}_crop.sgz')
+            try:
+                with SgzCropper(p) as c_:
+                    quiet(c_.write_cropped_file_by_indexes, q_, iline_index_range=(0, n_il), xline_index_range=(0, n_xl), zslices_index_range=(0, ns))
+                outs.append((q_, dict(inp, writer=inp['writer'] + ' -> crop (whole cube)')))
+            except Exception as e:
+                R.violation('oracle', dict(inp, writer=inp['writer'] + ' -> crop'), f'cropper raised {type(e).__name__}: {e}')
+            for q_, inp_ in outs:
+                check_file(q_, inp_, src, (n_il, n_xl, ns), hsrc)
+                try:
+                    with SgzReader(q_) as r:
+                        zs = np.asarray(r.zslices, dtype=np.float64)
+                    if zs.shape != samples.shape or not np.allclose(zs, samples, rtol=0, atol=1e-9):
+                        R.violation('oracle', inp_, f'the reader reports the sample axis {zs[:3].tolist()}.., the file was written with {samples[:3].tolist()}..')
+                except Exception as e:
+                    R.violation('oracle', inp_, f'reader failed on a file of version {vname}: {type(e).__name__}: {e}')
         # 2D
         for k in range(2 if not thorough else 8):
             nt, ns = rng.choice([5, 17, 21, 33]), rng.choice([9, 40])
